@@ -112,7 +112,7 @@ type Channel struct {
 
 	Q              *util.Queue
 	Errs           chan error
-	readLoopExited bool
+	readLoopExited atomic.Bool
 
 	ChannelLog io.Writer
 }
@@ -199,7 +199,7 @@ func (c *Channel) Close() error {
 
 	util.Yield("chan.close.flag")
 
-	if !c.readLoopExited {
+	if !c.readLoopExited.Load() {
 		go func() {
 			defer close(ch)
 
